@@ -33,7 +33,11 @@ package client
 //@ ensures [bounds-are-the-configured-instants] result1 == nil ==> (result0.lower != nil ==> *result0.lower == lo.res) && (result0.upper != nil ==> *result0.upper == hi.res)
 
 //@ func NewTemporalLogClient
-//@ props C18
+//@ props C18 C12
+//@ site client.New#1 as nc
+//@ at nc assert [each-shard-gets-a-client-for-its-own-uri-and-its-own-key] nc.uri == shard.Uri && nc.hc == hc && nc.opts.PublicKeyDER == shard.PublicKeyDer
+//@ loop 2 invariant len(clients) == rangeindex + 1
+//@ ensures [one-client-per-shard] result1 == nil ==> len(result0.Clients) == len(cfg.Shard)
 //@ arith int
 //@ site shardInterval#1 as s0
 //@ site shardInterval#2 as sk
